@@ -248,6 +248,15 @@ impl<'a> Env<'a> {
         }
     }
 
+    pub fn run_var(&mut self, files: &[SrcFile], main: &str, opts: &RunOpts, variants: &[Variant]) -> Exec<Vec<RunOut>> {
+        match self.call(&Req::RunVar { files: files.to_vec(), main: main.into(), opts: opts.clone(), variants: variants.to_vec() }) {
+            Exec::Ok(Resp::RunMany(r)) => Exec::Ok(r),
+            Exec::Ok(_) => Exec::Inconclusive("protocol".into()),
+            Exec::Abort(f) => Exec::Abort(f),
+            Exec::Inconclusive(s) => Exec::Inconclusive(s),
+        }
+    }
+
     pub fn run1(&mut self, src: &str, opts: &RunOpts) -> Exec<RunOut> {
         self.run(&single(src), "main.abra", opts)
     }
